@@ -138,6 +138,13 @@ def build_prog(p):
     import numpy
     from collada import asset, camera, geometry, light, material, scene, source
     doc = collada.Collada()
+    # non-finite and extreme values in every numeric place when p['extreme'] is set
+    X = p.get('extreme', 0)
+    INF, NAN = float('inf'), float('nan')
+    SPECIAL = [INF, -INF, NAN, 3.4028235e38, -3.4028235e38, 1e-45, -0.0, 1e38, 16777217.0, 1e-30]
+
+    def sp(i, default):
+        return SPECIAL[(i + X) % len(SPECIAL)] if X else default
     contributors = [asset.Contributor(author='a%d' % i, authoring_tool='tool') for i in range(p.get('contributors', 0))]
     doc.assetInfo = asset.Asset(created=FIXED_CREATED, modified=FIXED_MODIFIED, title=p.get('title'),
                                 unitname='meter', unitmeter=1.0, upaxis=asset.UP_AXIS.Y_UP if p.get('yup', 1) else asset.UP_AXIS.Z_UP,
@@ -149,7 +156,8 @@ def build_prog(p):
     mats = []
     for i in range(p.get('materials', 0)):
         eff = material.Effect('eff%d' % i, [], ['phong', 'lambert', 'blinn', 'constant'][i % 4],
-                              diffuse=(0.5, 0.25, 0.125 * (i + 1), 1.0), specular=(0, 1, 0, 1))
+                              diffuse=(0.5, sp(i, 0.25), 0.125 * (i + 1), 1.0), specular=(0, 1, 0, 1),
+                              shininess=sp(i + 1, 0.5), reflectivity=sp(i + 2, 0.0), transparency=sp(i + 4, 1.0))
         m = material.Material('mat%d' % i, 'material %d' % i, eff)
         doc.effects.append(eff)
         doc.materials.append(m)
@@ -159,6 +167,10 @@ def build_prog(p):
         n = 4 + i
         verts = numpy.array([[(j * 7 + c * 3 + i) % 11 - 5 + 0.5 * c for c in range(3)] for j in range(n)], dtype=numpy.float32)
         norms = numpy.array([[0, 0, 1], [0, 1, 0], [1, 0, 0]], dtype=numpy.float32)
+        if X:
+            for j in range(n):
+                verts[j, j % 3] = SPECIAL[(i + j + X) % len(SPECIAL)]
+            norms[1, 2] = SPECIAL[(i + X + 2) % len(SPECIAL)]
         vs = source.FloatSource('g%d-verts' % i, verts, ('X', 'Y', 'Z'))
         ns = source.FloatSource('g%d-norms' % i, norms, ('X', 'Y', 'Z'))
         g = geometry.Geometry(doc, 'geom%d' % i, 'geometry %d' % i, [vs, ns])
@@ -185,22 +197,26 @@ def build_prog(p):
                dict(xmag=2.0, ymag=3.0)]
     for i in range(p.get('cameras', 0)):
         if (i + p.get('camkind', 0)) % 2 == 0:
-            c = camera.PerspectiveCamera('cam%d' % i, 0.5, 1000.0, **combos[(i + p.get('combo', 0)) % 5])
+            c = camera.PerspectiveCamera('cam%d' % i, sp(i, 0.5), sp(i + 3, 1000.0), **combos[(i + p.get('combo', 0)) % 5])
         else:
-            c = camera.OrthographicCamera('cam%d' % i, 0.5, 1000.0, **ocombos[(i + p.get('combo', 0)) % 5])
+            c = camera.OrthographicCamera('cam%d' % i, sp(i + 1, 0.5), sp(i + 2, 1000.0), **ocombos[(i + p.get('combo', 0)) % 5])
+        if X:
+            for nm in ('xfov', 'yfov', 'xmag', 'ymag', 'aspect_ratio'):
+                if getattr(c, nm, None) is not None and (i + len(nm)) % 2:
+                    setattr(c, nm, sp(i + len(nm), 1.0))
         doc.cameras.append(c)
         cams.append(c)
     lights = []
     for i in range(p.get('lights', 0)):
         k = i % 4
         if k == 0:
-            L = light.DirectionalLight('light%d' % i, (1, 1, 1))
+            L = light.DirectionalLight('light%d' % i, (1, sp(i + 5, 1), 1))
         elif k == 1:
             L = light.AmbientLight('light%d' % i, (0.5, 0.25, 0.125))
         elif k == 2:
-            L = light.PointLight('light%d' % i, (1, 0.5, 0.25), 1.0, 0.5, 0.25)
+            L = light.PointLight('light%d' % i, (1, sp(i, 0.5), 0.25), sp(i + 1, 1.0), sp(i + 2, 0.5), sp(i + 3, 0.25))
         else:
-            L = light.SpotLight('light%d' % i, (1, 1, 0.5), 1.0, 0.0, 0.5, 45.0, 2.0)
+            L = light.SpotLight('light%d' % i, (1, 1, sp(i, 0.5)), 1.0, 0.0, 0.5, sp(i + 1, 45.0), sp(i + 2, 2.0))
         doc.lights.append(L)
         lights.append(L)
     nodes = []
@@ -208,7 +224,8 @@ def build_prog(p):
         binds = [scene.MaterialNode(sym, mats[i % len(mats)], inputs=[])] if mats else []
         gn = scene.GeometryNode(g, binds)
         nodes.append(scene.Node('node-g%d' % i, children=[gn],
-                                transforms=[scene.TranslateTransform(i, 0.5, -1), scene.ScaleTransform(1, 2, 0.5)]))
+                                transforms=[scene.TranslateTransform(sp(i, i), 0.5, sp(i + 1, -1)), scene.ScaleTransform(1, sp(i + 2, 2), 0.5),
+                                            scene.RotateTransform(0, 0, 1, sp(i + 3, 30.0))]))
     for i, c in enumerate(cams):
         nodes.append(scene.Node('node-c%d' % i, children=[scene.CameraNode(c)],
                                 transforms=[scene.RotateTransform(0, 1, 0, 90.0)]))
